@@ -687,7 +687,8 @@ def run(chk, args):
             step = os.environ.get("C20_STEP", "boot_step")    # boot_orig_step: validate the model of the code as found
             exprs = [coq_history(h, o["presets_before"], step) for h, o in good]
             costs = [sum(image_len(c["image"]) + 2000 for c in h["calls"]) for h, _ in good]
-            nsh = max(1, min(24, len(exprs) // 3))
+            # <= 40 histories per coqc process (each process stays below ~0.5 GB), at least 24 shards when possible
+            nsh = max(1, min(24, len(exprs) // 3), (len(exprs) + 39) // 40)
             perm = spread(costs, nsh)
             vals_p = chk.coq_eval(HEADER, [exprs[j] for j in perm], shard=(len(exprs) + nsh - 1) // nsh, timeout=1500)
             vals = [None] * len(exprs)
@@ -722,6 +723,9 @@ def run(chk, args):
         "below 512 and malformed sizes; struct files: the bundled sark.struct and synthetic ones (overlap, beyond the "
         "size, duplicate names, arrays, non-integer kinds, too small, missing fixed field); options: none, presets, "
         "keyword overrides, sv_overrides, both with a shared key, a caller's dictionary reused across calls, a preset "
-        "object passed as the dictionary, unknown names, out-of-range values; non-trivial = at least one boot inside "
+        "object passed as the dictionary, unknown names, out-of-range values; plus exhaustively every ordered pair "
+        "(preset i, then preset j or no option) and the F4 history; thorough tier adds every image size 0,4,...,4200 "
+        "and every field of the bundled sv overridden with 0 / max / max+1 / -1 followed by a boot without options; "
+        "non-trivial = at least one boot inside "
         "the property's domain succeeded and the history has >= 2 boots or that boot carried options; distinct by "
         "hash of the whole history")
